@@ -152,7 +152,60 @@ SAFE_METHODS = {
 }
 
 
-HOST_ERRORS = (TypeError, AttributeError, KeyError, IndexError, ValueError, ZeroDivisionError)
+HOST_ERRORS = (TypeError, AttributeError, KeyError, IndexError, ValueError, ZeroDivisionError, RuntimeError)
+
+
+class _LazyGen:
+    """A generator function of the interpreted program, run lazily: its body executes in a helper thread that is handed control only
+    inside __next__ (strict hand-off, never concurrent), so effects interleave with the consumer exactly as for a real generator."""
+
+    def __init__(self, interp, runner):
+        import threading
+        self.interp = interp
+        self.runner = runner
+        self.ready = threading.Semaphore(0)
+        self.resume = threading.Semaphore(0)
+        self.started = self.finished = self.done = False
+        self.exc = None
+        self.value = None
+
+    def __iter__(self):
+        return self
+
+    def _body(self):
+        self.interp._tls.gen = self
+        try:
+            self.runner()
+        except _Return:
+            pass
+        except BaseException as exc:  # handed to the consumer
+            self.exc = exc
+        self.finished = True
+        self.ready.release()
+
+    def _yield(self, v):
+        self.value = v
+        self.ready.release()
+        self.resume.acquire()
+
+    def __next__(self):
+        import threading
+        if self.done:
+            raise StopIteration
+        if not self.started:
+            self.started = True
+            t = threading.Thread(target=self._body, daemon=True)
+            t.start()
+        else:
+            self.resume.release()
+        self.ready.acquire()
+        if self.exc is not None:
+            e, self.exc, self.done = self.exc, None, True
+            raise e
+        if self.finished:
+            self.done = True
+            raise StopIteration
+        return self.value
 
 
 class PureInterp:
@@ -164,6 +217,9 @@ class PureInterp:
         self.events = []
         self.max_depth = max_depth
         self.steps = 0
+        import threading
+        self._tls = threading.local()
+        self._is_gen = {}
 
     # ------------------------------------------------------------------ functions
     def call(self, finfo, args=(), kwargs=None, self_obj=None, depth=0, closure=None):
@@ -205,12 +261,43 @@ class PureInterp:
         missing = [n for n in names if n not in env]
         if missing:
             raise Raised("TypeError", f"missing arguments {missing}")
+        if self._is_generator(finfo):
+            return _LazyGen(self, lambda: self.block(finfo.node.body, env, finfo.module, depth))
         try:
             self.block(finfo.node.body, env, finfo.module, depth)
         except _Return as r:
             return r.value
         except RecursionError:
             raise Unsupported("unbounded recursion")
+        return None
+
+    def _is_generator(self, finfo):
+        key = id(finfo.node)
+        if key not in self._is_gen:
+            found = False
+            stack = list(finfo.node.body)
+            while stack and not found:
+                n = stack.pop()
+                if isinstance(n, (ast.Yield, ast.YieldFrom)):
+                    found = True
+                elif not isinstance(n, (ast.FunctionDef, ast.AsyncFunctionDef, ast.Lambda, ast.ClassDef)):
+                    stack.extend(ast.iter_child_nodes(n))
+            self._is_gen[key] = found
+        return self._is_gen[key]
+
+    def e_Yield(self, n, env, module, depth):
+        gen = getattr(self._tls, "gen", None)
+        if gen is None:
+            raise Unsupported("yield outside an interpreted generator")
+        gen._yield(self.eval(n.value, env, module, depth) if n.value is not None else None)
+        return None
+
+    def e_YieldFrom(self, n, env, module, depth):
+        gen = getattr(self._tls, "gen", None)
+        if gen is None:
+            raise Unsupported("yield from outside an interpreted generator")
+        for v in self.eval(n.value, env, module, depth):
+            gen._yield(v)
         return None
 
     # ------------------------------------------------------------------ statements
@@ -246,9 +333,9 @@ class PureInterp:
         elif isinstance(st, ast.If):
             self.block(st.body if self.truth(self.eval(st.test, env, module, depth)) else st.orelse, env, module, depth)
         elif isinstance(st, (ast.For, ast.AsyncFor)):
-            it = self.eval(st.iter, env, module, depth)
+            it = self._iterable(self.eval(st.iter, env, module, depth))
             broke = False
-            for item in list(it):
+            for item in it:
                 self.assign(st.target, item, env, module, depth)
                 try:
                     self.block(st.body, env, module, depth)
@@ -319,12 +406,7 @@ class PureInterp:
                 for v in reversed(opened):
                     # every context manager's exit runs, also when an inner one raised (as in a real `with a, b:`)
                     try:
-                        if isinstance(v, Obj) and v._name == "file":
-                            self.events.append(("close", getattr(v, "path", None)))
-                        elif isinstance(v, Obj) and self._dunder(v, "__exit__") is not None:
-                            self.call(self._dunder(v, "__exit__"), (None, None, None), {}, self_obj=v, depth=depth + 1)
-                        elif isinstance(v, Obj) and "with_exit" in self.hooks:
-                            self.hooks["with_exit"](v)
+                        self._exit_cm(v, depth)
                     except Raised as exc_:
                         pending = exc_
                 if pending is not None:
@@ -388,7 +470,7 @@ class PureInterp:
         if isinstance(t, ast.Name):
             env[t.id] = v
         elif isinstance(t, (ast.Tuple, ast.List)):
-            vals = list(v)
+            vals = list(self._iterable(v))
             if len(vals) != len(t.elts):
                 raise Raised("ValueError", "unpack")
             for tt, vv in zip(t.elts, vals):
@@ -411,6 +493,52 @@ class PureInterp:
                 raise Unsupported("attribute store")
         else:
             raise Unsupported("assignment target")
+
+    def _exitstack(self, depth):
+        """contextlib.ExitStack: enter_context/callback/push register exits that run in reverse order when the stack's with-block ends."""
+        stack = Obj("exitstack", _exits=[])
+
+        def enter_context(cm):
+            bound = cm
+            enter = self._dunder(cm, "__enter__")
+            if enter is not None:
+                bound = self.call(enter, (), {}, self_obj=cm, depth=depth + 1)
+            stack._exits.append(("cm", cm))
+            return bound
+
+        def callback(fn, *a, **k):
+            stack._exits.append(("cb", fn, a, k))
+            return fn
+        stack.enter_context = enter_context
+        stack.callback = callback
+        stack.push = lambda cm: stack._exits.append(("cm", cm)) or cm
+        stack.close = lambda: self._unwind_exitstack(stack, depth)
+        stack.pop_all = lambda: stack
+        return stack
+
+    def _unwind_exitstack(self, stack, depth):
+        pending = None
+        while stack._exits:
+            item = stack._exits.pop()
+            try:
+                if item[0] == "cb":
+                    self.apply(item[1], list(item[2]), dict(item[3]), depth)
+                else:
+                    self._exit_cm(item[1], depth)
+            except Raised as exc_:
+                pending = exc_
+        if pending is not None:
+            raise pending
+
+    def _exit_cm(self, v, depth):
+        if isinstance(v, Obj) and v._name == "file":
+            self.events.append(("close", getattr(v, "path", None)))
+        elif isinstance(v, Obj) and v._name == "exitstack":
+            self._unwind_exitstack(v, depth)
+        elif isinstance(v, Obj) and self._dunder(v, "__exit__") is not None:
+            self.call(self._dunder(v, "__exit__"), (None, None, None), {}, self_obj=v, depth=depth + 1)
+        elif isinstance(v, Obj) and "with_exit" in self.hooks:
+            self.hooks["with_exit"](v)
 
     def _pycallable(self, v, depth):
         """Interpreter-level callables (lambdas, closures, repo functions) wrapped for host builtins such as sorted(key=...)."""
@@ -658,7 +786,7 @@ class PureInterp:
             yield env
             return
         g = gens[0]
-        for item in list(self.eval(g.iter, env, module, depth)):
+        for item in self._iterable(self.eval(g.iter, env, module, depth)):
             e = dict(env)
             self.assign(g.target, item, e, module, depth)
             if all(self.truth(self.eval(c, e, module, depth)) for c in g.ifs):
@@ -667,7 +795,40 @@ class PureInterp:
     def e_ListComp(self, n, env, module, depth):
         return [self.eval(n.elt, e, module, depth) for e in self._comp(n.generators, env, module, depth)]
 
-    e_GeneratorExp = e_ListComp
+    def e_GeneratorExp(self, n, env, module, depth):
+        # lazy and one-shot like the real thing; the outermost iterable is evaluated now (as Python does)
+        first = n.generators[0]
+        outer = self._iterable(self.eval(first.iter, env, module, depth))
+
+        def run():
+            for item in outer:
+                e = dict(env)
+                self.assign(first.target, item, e, module, depth)
+                if all(self.truth(self.eval(c, e, module, depth)) for c in first.ifs):
+                    for e2 in self._comp(n.generators[1:], e, module, depth):
+                        yield self.eval(n.elt, e2, module, depth)
+        return run()
+
+    def _iterable(self, v):
+        """Iteration protocol for symbolic objects: NamedTuple-like objects iterate their fields, objects of repo classes use __iter__."""
+        if isinstance(v, Obj):
+            seq = self._as_sequence(v)
+            if seq is not None:
+                return iter(seq)
+            dm = self._dunder(v, "__iter__")
+            if dm is not None:
+                return iter(self.call(dm, (), {}, self_obj=v))
+            raise Raised("TypeError", f"'{v._name}' object is not iterable")
+        return v
+
+    def _as_sequence(self, o):
+        attrs = o.__dict__["_attrs"]
+        if "_nt_fields" in attrs:
+            return [attrs[f] for f in attrs["_nt_fields"]]
+        cls = attrs.get("__class__")
+        if isinstance(cls, ClassInfo) and any((self.index.canon(b, cls.module) or "").endswith("NamedTuple") for b in getattr(cls, "base_exprs", [])):
+            return [attrs[f[0]] for f in cls.fields if f[0] in attrs]
+        return None
 
     def e_SetComp(self, n, env, module, depth):
         return {self.eval(n.elt, e, module, depth) for e in self._comp(n.generators, env, module, depth)}
@@ -712,6 +873,13 @@ class PureInterp:
             return self.hooks["attr:" + f[1]](f[2], *args, **kwargs)
         if isinstance(f, tuple) and f and f[0] == "closure":
             return self.call(f[1], args, kwargs, depth=depth + 1, closure=f[2])
+        if isinstance(f, tuple) and f and f[0] == "ntclass":
+            vals = dict(zip(f[2], args))
+            vals.update(kwargs)
+            missing = [x for x in f[2] if x not in vals]
+            if missing:
+                raise Raised("TypeError", f"{f[1]}() missing {missing}")
+            return Obj(f[1], _nt_fields=f[2], **vals)
         if isinstance(f, tuple) and f and f[0] == "partial":
             return self.apply(f[1], list(f[2]) + list(args), dict(f[3], **kwargs), depth, node)
         if isinstance(f, tuple) and f and f[0] == "memodeco":
@@ -754,18 +922,23 @@ class PureInterp:
                 if b == "isinstance":
                     return self._isinstance(args[0], args[1])
                 if b == "filter":
-                    return [x for x in args[1] if (self.truth(x) if args[0] is None else self.truth(self.apply(args[0], [x], {}, depth)))]
+                    return (x for x in self._iterable(args[1]) if (self.truth(x) if args[0] is None else self.truth(self.apply(args[0], [x], {}, depth))))
                 if b == "map":
-                    return [self.apply(args[0], [x], {}, depth) for x in args[1]]
+                    return (self.apply(args[0], list(xs), {}, depth) for xs in zip(*[self._iterable(a_) for a_ in args[1:]]))
                 if b == "next":
-                    it = list(args[0])
-                    if it:
-                        return it[0]
-                    if len(args) > 1:
-                        return args[1]
-                    raise Raised("StopIteration", "")
+                    it = args[0]
+                    if not hasattr(it, "__next__"):
+                        raise Raised("TypeError", f"'{type(it).__name__}' object is not an iterator")
+                    try:
+                        return next(it)
+                    except StopIteration:
+                        if len(args) > 1:
+                            return args[1]
+                        raise Raised("StopIteration", "")
                 if b == "iter":
-                    return list(args[0])
+                    return iter(self._iterable(args[0]))
+                if b in ("list", "tuple", "set", "frozenset", "sorted", "sum", "any", "all", "max", "min", "enumerate", "dict", "len", "reversed") and args and isinstance(args[0], Obj):
+                    args = [self._iterable(args[0]) if b != "len" else (self._as_sequence(args[0]) or args[0])] + list(args[1:])
                 if b == "callable":
                     return isinstance(args[0], (FuncInfo, FuncRef)) or (isinstance(args[0], tuple) and args[0] and args[0][0] in ("lambda", "bound"))
                 if b == "hasattr":
@@ -782,6 +955,26 @@ class PureInterp:
                 ev_ = self.events
                 mk = lambda lvl: (lambda *a, **k: ev_.append(("log", lvl, a)))
                 return Obj("opaque:logger", **{lvl: mk(lvl) for lvl in ("debug", "info", "warning", "error", "exception", "critical", "log")})
+            if name in ("operator.attrgetter", "operator.itemgetter", "operator.methodcaller"):
+                kind = name.rsplit(".", 1)[1]
+                if kind == "attrgetter":
+                    def _get(o, names=tuple(args)):
+                        vals = []
+                        for nm in names:
+                            cur = o
+                            for part in nm.split("."):
+                                cur = getattr(cur, part)
+                            vals.append(cur)
+                        return vals[0] if len(vals) == 1 else tuple(vals)
+                    return _get
+                if kind == "itemgetter":
+                    return (lambda o, keys=tuple(args): o[keys[0]] if len(keys) == 1 else tuple(o[k] for k in keys))
+                raise Unsupported("operator.methodcaller")
+            if name == "collections.namedtuple":
+                fields = args[1].replace(",", " ").split() if isinstance(args[1], str) else list(args[1])
+                return ("ntclass", args[0], tuple(fields))
+            if name == "contextlib.ExitStack":
+                return self._exitstack(depth)
             if name == "functools.partial":
                 return ("partial", args[0], tuple(args[1:]), dict(kwargs))
             if name in ("functools.lru_cache", "functools.cache"):
